@@ -28,6 +28,7 @@ RULE = (
     "the visitor builds for the same def nested in another function. Calls to generated typed callables get the "
     "same diagnostics inside the defining module and in a module importing the callable. Non-trivial = E of depth "
     ">= 2 or using a tuple / Callable / Annotated form; headers with >= 2 parameter kinds (distinct by text)."
+    ' Default values include objects with unusual equality (equal to everything, NaN, identity-only sentinel, unhashable list, NotImplemented, enum member); an exception while deriving a signature is a disagreement.'
 )
 ASSUMPTIONS = [
     "Values are compared with == and, failing that, by their string form (TypeVar identity is shared through the vocabulary module)",
